@@ -18,6 +18,12 @@ from .core import RunResult, canonical_json, stable_hash
 
 VERIF = os.path.dirname(os.path.dirname(os.path.abspath(__file__)))
 EVIDENCE_DIR = os.path.join(VERIF, "evidence")
+if os.environ.get("VERIF_EVIDENCE_DIR"):
+    EVIDENCE_DIR = os.environ["VERIF_EVIDENCE_DIR"]  # self-tests keep their runs away from the committed evidence
+elif os.path.realpath(os.environ.get("VERIF_REPO", "/repo")) != "/repo":
+    # runs against a scratch copy (mutation / seeded self-tests) must not overwrite the committed evidence,
+    # which describes runs against /repo itself
+    EVIDENCE_DIR = os.path.join("/tmp", "verif-scratch-evidence")
 REPLAY_DIR = os.path.join(VERIF, "replays")
 KNOWN_FILE = os.path.join(VERIF, "known_findings.json")
 WORKERS = int(os.environ.get("VERIF_WORKERS", "16"))
